@@ -46,7 +46,8 @@ type damage struct {
 
 // synInput is the replay record of a synthetic case.
 type synInput struct {
-	Part    string   `json:"part"` // "synthetic"
+	Part    string   `json:"part"`  // "synthetic"
+	Notes   string   `json:"notes"` // names of the layouts, comma separated
 	Layouts []layout `json:"layouts"`
 	Mode    string   `json:"mode"` // scan | load-only | write | read | rewrite | read-damaged
 	Damage  *damage  `json:"damage,omitempty"`
@@ -400,8 +401,12 @@ func (s *synRunner) runLayouts(ls []layout, rng *rand.Rand, nDamage int, only *s
 			}
 		}
 	}
+	var names []string
+	for _, l := range ls {
+		names = append(names, l.Note)
+	}
 	base := func(mode string, d *damage) synInput {
-		return synInput{Part: "synthetic", Layouts: ls, Mode: mode, Damage: d}
+		return synInput{Part: "synthetic", Notes: strings.Join(names, ","), Layouts: ls, Mode: mode, Damage: d}
 	}
 
 	// 1. scan
